@@ -1,4 +1,5 @@
 import GrinVerif.Lemmas.DecSerSeg
+import GrinVerif.Lemmas.DecSerAgree
 import GrinVerif.Props.C11
 /-! # C11 (continued) — the decoders of the consensus objects, and `decode_message` without payload hypotheses
 
@@ -325,5 +326,61 @@ example : (decodeMessageBody .buf
     { cfg := { ver := 3, nrd := false, maxWeight := 40000, proofSize := 42, key := fun _ => 0 },
       ct := .mainnet, now := 0, ftl := 300, powOk := fun _ => true } 3
     [0, 0, 0, 0, 0, 0, 0, 5, 0, 0, 0, 0, 0, 0, 0, 9]).alloc = 0 := by decide
+
+/-! ## reader independence (`BinReader` = `ser::deserialize`, `BufReader` = the codec)
+
+The models distinguish the readers only in *when* `read_fixed_bytes` allocates; value, unread rest
+(hence consumed length) and error kind do not depend on the reader.  Stated for every input, so in
+particular for every prefix of a valid encoding. -/
+
+/-- forgetting the allocation ghost determines the class text the harness prints -/
+theorem cls_of_toExcept {α : Type} {o1 o2 : Outcome α} (h : o1.toExcept = o2.toExcept) (len : Nat) :
+    o1.cls len = o2.cls len := by
+  cases o1 <;> cases o2 <;> simp_all [Outcome.toExcept, Outcome.cls]
+
+/-- every payload decoder of `decode_message` (transactions, blocks, compact blocks, headers, the four
+segment responses incl. bitmap segments) gives the same value / rest / error through both readers -/
+theorem payload_readers_agree (e : Env) (t : Nat) (bytes : Bytes) :
+    (payload .bin e t bytes).toExcept = (payload .buf e t bytes).toExcept := agree_payload .bin .buf e t bytes
+
+/-- **the two readers agree on every prefix** (cut at any offset `n`) of any byte string `enc`, for every
+body `decode_message` dispatches except `BanReason`, at every protocol version / chain parameters `e`:
+same verdict class, same consumed length, same decoded value -/
+theorem readers_agree_on_prefixes (e : Env) (t : Nat) (ht : t ≠ GV.Gen.Msg.T_BanReason) (enc : Bytes) (n : Nat) :
+    (decodeMessageBody .bin e t (enc.take n)).toExcept = (decodeMessageBody .buf e t (enc.take n)).toExcept ∧
+    (decodeMessageBody .bin e t (enc.take n)).cls (enc.take n).length =
+      (decodeMessageBody .buf e t (enc.take n)).cls (enc.take n).length := by
+  have h := agree_decBody (pl := payload .bin e) (pl' := payload .buf e) .bin .buf (agree_payload .bin .buf e) t ht
+    (enc.take n)
+  exact ⟨h, cls_of_toExcept h _⟩
+
+/-- the item decoders the harness also feeds directly -/
+theorem item_readers_agree (c : Cfg) (bytes : Bytes) :
+    (rTxKernel .bin c bytes).toExcept = (rTxKernel .buf c bytes).toExcept ∧
+    (rInput .bin bytes).toExcept = (rInput .buf bytes).toExcept ∧
+    (rOutput .bin bytes).toExcept = (rOutput .buf bytes).toExcept ∧
+    (rRangeProof .bin bytes).toExcept = (rRangeProof .buf bytes).toExcept ∧
+    (rBlockHeader .bin c bytes).toExcept = (rBlockHeader .buf c bytes).toExcept ∧
+    (rBitmapSegment .bin bytes).toExcept = (rBitmapSegment .buf bytes).toExcept :=
+  ⟨agree_rTxKernel _ _ c bytes, agree_rInput _ _ bytes, agree_rOutput _ _ bytes, agree_rRangeProof _ _ bytes,
+   agree_rBlockHeader _ _ c bytes, agree_rBitmapSegment _ _ bytes⟩
+
+/-- `Segment<T>::read` for any leaf reader that is itself reader-independent -/
+theorem segment_readers_agree {α : Type} (p q : Dec α) (hp : ∀ bytes, (p bytes).toExcept = (q bytes).toExcept)
+    (sz : Nat) (bytes : Bytes) : (segment .bin p sz bytes).toExcept = (segment .buf q sz bytes).toExcept :=
+  agree_segment .bin .buf hp sz bytes
+
+/-- the exception is real: `BanReason::read` replaces a failed `read_i32` by 0, after which a `BinReader`
+over a slice has consumed the rest of the slice and a `BufReader` nothing — on the 1-byte prefix `[1]`
+both answer `ok`, with consumed lengths 1 and 0 -/
+example : (match decBanReason (P := Unit) .bin [1], decBanReason (P := Unit) .buf [1] with
+    | .ok _ r1 _, .ok _ r2 _ => r1.length + 1 == r2.length
+    | _, _ => false) = true := by decide
+
+/-- a cut inside the zero padding of a v1 `Plain` kernel (feature byte, fee, 3 of 8 padding bytes):
+`IOErr` with nothing allocated, through either reader -/
+example : ∀ rd, rTxKernel rd { ver := 1, nrd := false, maxWeight := 40000, proofSize := 42, key := fun _ => 0 }
+    [0, 0, 0, 0, 0, 0, 0, 0, 9, 0, 0, 0] = .err .ioEof 0 := by
+  intro rd; cases rd <;> decide
 
 end GV.Props.C11Ser
